@@ -33,6 +33,12 @@ CORPUS_A = [
 ]
 
 CORPUS_B = [
+    # a consumer raises during one zip emission; every later emission must still go through (nothing stays parked)
+    {"mode": "async", "flavour": "future", "nodes": [{"kind": "source", "ups": []}, {"kind": "source", "ups": []}, {"kind": "zipmax", "ups": [0, 1], "maxsize": 1},
+                                                      {"kind": "map", "f": ["sumTup"], "ups": [2]}, {"kind": "sink", "mode": "sync", "f": ["failIf", 3, 0], "ups": [3]}],
+     "ops": [{"op": "settle"}, {"op": "emit", "node": 0, "val": 1, "md": []}, {"op": "emit", "node": 1, "val": 2, "md": []},
+             {"op": "emit", "node": 0, "val": 4, "md": []}, {"op": "emit", "node": 1, "val": 6, "md": []},
+             {"op": "emit", "node": 0, "val": 7, "md": []}, {"op": "emit", "node": 1, "val": 9, "md": []}, {"op": "advance", "dt": 1}]},
     # three inputs, two of them more than maxsize ahead, then the slow one catches up: every parked emit must complete
     {"mode": "async", "flavour": "future", "nodes": [{"kind": "source", "ups": []}, {"kind": "source", "ups": []}, {"kind": "source", "ups": []},
                                                       {"kind": "zipmax", "ups": [0, 1, 2], "maxsize": 1}, {"kind": "sink", "mode": "sync", "f": ["id"], "ups": [3]}],
@@ -86,6 +92,41 @@ def threaded_sample(ctx, n):
                         % (time.time() - t0, state["finished"], raised), case)
 
 
+def threaded_nested_sample(ctx, n):
+    """A consumer that re-emits into another loop-bound blocking stream (a.sink(b.emit)) while the loop runs in a
+    background thread: the outer blocking emit must return (no deadlock) after the inner consumer has finished."""
+    from streamz import Stream
+    for i in range(n):
+        got = []
+        a = Stream(asynchronous=False)
+        b = Stream(asynchronous=False)
+        if i % 2:
+            b = b.map(lambda x: x + 1)
+        a.buffer(1) if i % 3 == 2 else None
+        b.sink(got.append)
+        a.sink(b.emit)
+        box = {}
+
+        def work():
+            try:
+                a.emit(i)
+                box["ok"] = True
+            except Exception as e:  # noqa: BLE001
+                box["err"] = type(e).__name__
+        t = threading.Thread(target=work, daemon=True)
+        t.start()
+        t.join(8)
+        case = {"threaded": True, "nested": True, "variant": i % 6}
+        ctx.case(case, nontrivial=True)
+        ctx.count("threaded-nested")
+        if t.is_alive():
+            ctx.failure("threaded-nested-emit-deadlock", "blocking emit() did not return within 8 s when its consumer re-emits into another "
+                        "blocking stream on the same loop thread (nested emit)", case)
+            return
+        if box.get("err") or len(got) != 1:
+            ctx.failure("threaded-nested-emit-lost", "nested blocking emit: outer emit %r, inner consumer received %r" % (box, got), case)
+
+
 def run(ctx):
     ctx.audit(extra_modules=lean_extra("C03"))
     n = 150 if not ctx.thorough() else 5000
@@ -94,6 +135,7 @@ def run(ctx):
     for m in corr_modules():
         m.run(ctx, "C03", 40 if not ctx.thorough() else 1500)
     threaded_sample(ctx, 12 if not ctx.thorough() else 120)
+    threaded_nested_sample(ctx, 6 if not ctx.thorough() else 30)
     ctx.coverage["rule"] = ("(A) graph-family generator in asynchronous mode with harness-completed consumers of three flavours; (B) asynchronous pipelines as in C02 "
                             "with awaited and un-awaited producers; (C) 12/120 threaded blocking emits. Non-trivial as in C01/C02.")
     ctx.assumptions += ["'accepted' = the emit awaitable completed; 'handed on' = the node called _emit; bounds are checked when the node directly follows the entry point",
@@ -104,7 +146,9 @@ def run(ctx):
 def replay(ctx, data):
     ctx.audit(extra_modules=lean_extra("C03"))
     case = data["case"]
-    if case.get("threaded"):
+    if case.get("threaded") and case.get("nested"):
+        threaded_nested_sample(ctx, 6)
+    elif case.get("threaded"):
         threaded_sample(ctx, 12)
     elif any(op["op"] in ("advance", "settle", "jobdone") for op in case["ops"]) or any(n["kind"] in ac.HOLDING for n in case["nodes"]):
         ac.evaluate(ctx, case, ac.rerun(case), ["backpressure"], SIGS_B)
